@@ -4,6 +4,7 @@ import SluProofs.Lemmas.LUSchedule
 import SluProofs.Lemmas.DfsTopo
 import SluProofs.Lemmas.Prune
 import SluProofs.Lemmas.ColDfs
+import SluProofs.Lemmas.PanelDfs
 /-
 C02 — Factors reproduce the permuted matrix; pivoting bounds hold.
 
@@ -979,3 +980,60 @@ theorem colDfs_lsub_nodup (i : Input) (h : wfIn i = true) :
 example := colDfs_lsub_nodup exIn (by decide +kernel)
 
 end Slu.ColDfs
+
+/-! ## `[sdcz]panel_dfs` (Slu/Model/PanelDfs.lean; lockstep with the column_dfs machine: Lemmas/PanelDfs.lean) -/
+namespace Slu.PanelDfs
+open Slu Slu.LU List
+open Slu.ColDfs (EMPTY rd slice)
+
+/-- **C02 (one panel column of `[sdcz]panel_dfs`, given the shared-marker state).**  For every panel column `jj`
+(environment `e`) and every state `ps` accepted by `ColOK` — the column's `repfnz` slice is clean, no row carries
+the mark `jj`, `segrep[0..nseg)` lists distinct representatives all recorded for this panel (`marker1 >= jcol`) —
+the explicit-stack loop over the rows `rows` of `A(:,jj)` terminates within the fuel bound and
+* `{s : repfnz_col[s] != EMPTY}` is exactly the list `post` computed by the RECURSIVE search `dfsList` on the graph
+  read off the arrays (`Slu.ColDfs.adjR`), started from the pivot columns of the rows, nothing visited;
+* `segrep[nseg_in .. nseg_out)` is the postorder `post.reverse` FILTERED by `marker1[t] < jcol` on entry (the
+  representatives no earlier column of the panel has recorded), `segrep[0..nseg_in)` is untouched, `marker1`
+  becomes `jj` exactly on the recorded ones, and the invariant on `segrep`/`marker1` holds again on exit. -/
+theorem panelDfs_column_eq_recursive_partial {e : Env} {ps : St} (hC : ColOK e ps) {fuel : Nat}
+    (hfuel : (e.jcol.toNat + 1) * (e.lsub.size + 2) ≤ fuel) {rows : List Int} (hrows : ∀ r ∈ rows, 0 ≤ r ∧ r < e.m) :
+    ∃ ps' post, search e fuel rows ps = some ps' ∧
+      post = dfsList (ColDfs.adjR e.cenv e.lsub) e.jcol.toNat ((ColDfs.rootCols e.cenv rows).map (ColDfs.repN e.cenv)) [] ∧
+      (∀ s : Nat, (s : Int) < e.jcol → (fnz e ps' s ≠ EMPTY ↔ s ∈ post)) ∧
+      ps.nseg ≤ ps'.nseg ∧
+      slice ps'.segrep ps.nseg ps'.nseg = (post.reverse.map Int.ofNat).filter (fun t => decide (m1 e ps t < e.jcol)) ∧
+      slice ps'.segrep 0 ps.nseg = slice ps.segrep 0 ps.nseg ∧
+      (∀ t, 0 ≤ t → t < e.jcol → m1 e ps' t =
+        if t ∈ (post.reverse.map Int.ofNat).filter (fun t => decide (m1 e ps t < e.jcol)) then e.jj else m1 e ps t) ∧
+      (slice ps'.segrep 0 ps'.nseg).Nodup ∧
+      (∀ t ∈ slice ps'.segrep 0 ps'.nseg, 0 ≤ t ∧ t < e.jcol ∧ e.jcol ≤ m1 e ps' t) :=
+  panelCol_eq_dfsList hC hfuel hrows
+
+/-! example: the factored state of `Slu.ColDfs.exIn` (8 rows, columns 0..5 factored), panel of the columns 6, 7:
+A(:,6) has rows 0, 7 and A(:,7) has rows 3, 1, 6.  Column 6 reaches 0 → 2 → 5, 4 (`segrep` 5 2 4 0); column 7
+reaches 3 (new) and, through row 1 (column 1, representative 2), 2 → 5 again: not recorded a second time. -/
+def exP : Input Int :=
+  { m := 8, w := 2, jcol := 6,
+    asub := #[0, 7, 3, 1, 6], nzval := #[10, 11, 12, 13, 14],
+    colbeg := #[0, 0, 0, 0, 0, 0, 0, 2], colend := #[0, 0, 0, 0, 0, 0, 2, 5],
+    perm_r := #[0, 1, 2, 3, 4, 5, -1, -1],
+    dense := #[0, 0, 0, 0, 0, 0, 0, 0, 0, 0, 0, 0, 0, 0, 0, 0],
+    panelLsub := #[-1, -1, -1, -1, -1, -1, -1, -1, -1, -1, -1, -1, -1, -1, -1, -1],
+    segrep := #[-7, -7, -7, -7, -7, -7, -7, -7],
+    repfnz := #[-1, -1, -1, -1, -1, -1, -1, -1, -1, -1, -1, -1, -1, -1, -1, -1],
+    xprune := #[3, 99999, 11, 13, 16, 19, 0],
+    marker := #[0, 0, 0, 0, 5, 5, 5, 5, -1, -1, 3, 3, 5, 5, 1, 1, 6, 6, 6, 6, 7, 7, 7, 7],
+    parent := #[4, 4, 4, 4, 4, 4, 4, 4], xplore := #[9, 9, 9, 9, 9, 9, 9, 9],
+    xsup := #[0, 1, 3, 4, 5, 6, -7, -7], supno := #[0, 1, 1, 2, 3, 4, 4, -7],
+    lsub := #[0, 2, 4, 6,  1, 2, 5, 7,  2, 5, 7,  3, 7,  4, 5, 6,  5, 6, 7,  -5, -5, -5],
+    xlsub := #[0, 4, 8, 11, 13, 16, 19, -7] }
+
+example : wfPanelIn exP = true := by decide +kernel
+example : (panelDfs exP (fuelBound exP)).map (fun o => (o.nseg, slice o.segrep 0 o.nseg, slice o.repfnz 0 6, slice o.repfnz 8 14)) =
+    some (5, [5, 2, 4, 0, 3], [0, -1, 2, -1, 4, 5], [-1, -1, 1, 3, -1, 5]) := by decide +kernel
+example : (panelDfs exP (fuelBound exP)).map (fun o => (slice o.panelLsub 0 3, slice o.panelLsub 8 11, o.dense.toList)) =
+    some ([6, 7, -1], [7, 6, -1], [10, 0, 0, 0, 0, 0, 0, 11, 0, 13, 0, 12, 0, 0, 14, 0]) := by decide +kernel
+example := panelDfs_column_eq_recursive_partial (wfPanelIn_colOK0 (i := exP) (by decide +kernel)) (fuel := fuelBound exP) (le_refl _)
+  (by have := wfPanelIn_rows (i := exP) (by decide +kernel) (k := 0) (by decide); simpa using this)
+
+end Slu.PanelDfs
